@@ -171,7 +171,7 @@ def judge_fifo(ref, w, what):
 
 
 def gen_exhaustive(maxlen, deb0=2, handler_style=False):
-    a, b = hexs("/a"), hexs("/b/c.txt")
+    a, b = hexs("/a"), hexs("/.b/c.txt")
     alphabet = ["lq_push %s 0" % a, "lq_push %s 5" % b, "lq_push %s 2" % a, "lq_head", "lq_pop",
                 "lq_tick 1", "lq_redeb 0", "lq_redeb 3", "lq_reload 0"]
     if handler_style:   # the daemon only ever looks at the head inside a timeout pass
@@ -198,10 +198,10 @@ def rand_path(rng):
     total = 0
     while total < ln:
         c = "".join(rng.choice("abcXYZ019._- \xe9\xff") for _ in range(rng.randint(1, min(200, ln - total))))
-        if not comps and c.startswith("."):
-            c = "d" + c[1:] if len(c) > 1 else "d"   # keep the first component normal
+        if not comps and rng.random() < 0.25:
+            c = "." + c.lstrip(".")     # hidden top-level directories such as /.snapshots are ordinary paths
         if len(comps) == 0 and c == ".":
-            c = "d"
+            c = ".d"                    # only the component "." itself (and the empty one) is not normal (finding F8)
         comps.append(c)
         total += len(c) + 1
     return "/" + "/".join(comps)
